@@ -5,6 +5,7 @@ package main
 
 import (
 	"fmt"
+	"strconv"
 	"os"
 	"runtime/debug"
 	"math/big"
@@ -48,7 +49,7 @@ type Witness struct {
 	Pkg     string   `json:"pkg"`
 	Func    string   `json:"func"`
 	Args    []string `json:"args"` // concrete argument values, Go-quoted for strings
-	Kind    string   `json:"kind"` // "violation", "reach", "panic", "sharedwrite", "unwind"
+	Kind    string   `json:"kind"` // "violation", "reach", "panic", "sharedwrite", "syncwrite", "nondet", "unwind"
 	Msg     string   `json:"msg"`
 	Active  []string `json:"active,omitempty"`
 	Replay  string   `json:"replay,omitempty"` // filled by native replay
@@ -99,10 +100,19 @@ type runState struct {
 	maxViol     int
 	assertsSeen int
 	pending     []pendingAssert
+	syncWrites  int
 }
 
 func (rs *runState) sharedWrite(in *Interp, what string, stamp int64) {
 	if !rs.cfg.Monitor {
+		return
+	}
+	if in.syncDepth > 0 {
+		// synchronised write: a candidate for the race detector only; the path goes on
+		if rs.syncWrites < 2 {
+			rs.syncWrites++
+			in.reportIfFeasible(rs, "syncwrite", "write under a lock or through an atomic operation to memory shared across API calls: "+what, true)
+		}
 		return
 	}
 	panic(pathEnd{kind: endViolation, msg: "write to memory shared across API calls: " + what, site: "sharedwrite"})
@@ -207,31 +217,43 @@ func parseSet(body string) (ByteSet, error) {
 		body = body[1:]
 	}
 	bs := []byte(body)
-	for i := 0; i < len(bs); i++ {
-		c := bs[i]
-		if c == '\\' && i+1 < len(bs) {
-			i++
-			c = bs[i]
-			switch c {
-			case 't':
-				c = '\t'
-			case 'n':
-				c = '\n'
-			case 'r':
-				c = '\r'
-			case '0':
-				c = 0
+	// one (possibly escaped) member starting at i: \t \n \r \0 \xHH, any other escaped byte stands for itself
+	next := func(i int) (int, int) {
+		c := int(bs[i])
+		if c != '\\' || i+1 >= len(bs) {
+			return c, i + 1
+		}
+		i++
+		switch bs[i] {
+		case 't':
+			return '\t', i + 1
+		case 'n':
+			return '\n', i + 1
+		case 'r':
+			return '\r', i + 1
+		case '0':
+			return 0, i + 1
+		case 'x':
+			if i+2 < len(bs) {
+				if v, err := strconv.ParseUint(string(bs[i+1:i+3]), 16, 8); err == nil {
+					return int(v), i + 3
+				}
 			}
 		}
-		if i+2 < len(bs) && bs[i+1] == '-' {
-			hi := bs[i+2]
-			for x := int(c); x <= int(hi); x++ {
+		return int(bs[i]), i + 1
+	}
+	for i := 0; i < len(bs); {
+		c, ni := next(i)
+		if ni+1 < len(bs) && bs[ni] == '-' {
+			hi, nj := next(ni + 1)
+			for x := c; x <= hi; x++ {
 				s.Add(x)
 			}
-			i += 2
+			i = nj
 			continue
 		}
-		s.Add(int(c))
+		s.Add(c)
+		i = ni
 	}
 	if neg {
 		s = s.Not().And(classSets["A"])
@@ -480,6 +502,8 @@ func (in *Interp) RunConfig(cfg *Config, maxPaths int64, deadline time.Time) *Re
 			}()
 			args := make([]Value, len(rs.argVals))
 			copy(args, rs.argVals)
+			in.syncDepth = 0
+			rs.syncWrites = 0
 			in.callFunction(fn, args, nil)
 			end = pathEnd{kind: endDone}
 		}()
